@@ -503,7 +503,7 @@ class The(ResultQuantifier[T]):
                 result = sources
             else:
                 raise NoSolutionFound(self._child_)
-        else:
+        elif self._var_:
             result[self._id_] = result[self._var_._id_]
         return result
 
